@@ -142,17 +142,29 @@ def api_leaf(l):
         return PF.exponential(float(c[0]), float(l["n"]))
 
 
+def used_elsewhere(obj):
+    """objects are values: a function that has been composed is not changed by being composed again.  Every intermediate result
+    of the Python-API composition becomes an operand of further, discarded compositions (as a partial sum re-used in two
+    models would) before anything is evaluated"""
+    other = PF.polynomial(1.0, 2.0)
+    for op in (AP.plus, AP.product):
+        op(obj, other)
+        op(other, obj)
+    AP.pow(obj, PF.constant(2.0))
+    return obj
+
+
 def api_item(it):
     t = it["t"]
     if t == "leaf":
         return api_leaf(it)
     args = [api_def(a) for a in it["args"]]
     if t == "sum":
-        return functools.reduce(AP.plus, args)
+        return used_elsewhere(functools.reduce(lambda a, b: AP.plus(used_elsewhere(a), b), args))
     if t == "product":
-        return functools.reduce(AP.product, args)
+        return used_elsewhere(functools.reduce(lambda a, b: AP.product(used_elsewhere(a), b), args))
     if t == "pow":
-        return AP.pow(args[0], api_def(dict(t="def", rs=[dict(ty=">", s=0, it=dict(t="leaf", kind="const", c=[it["k"], 0, 0], n=0))])))
+        return used_elsewhere(AP.pow(args[0], api_def(dict(t="def", rs=[dict(ty=">", s=0, it=dict(t="leaf", kind="const", c=[it["k"], 0, 0], n=0))]))))
     if t == "trans":
         f, X = args[0], float(it["x"])
 
